@@ -66,18 +66,18 @@ Theorem C06_match_complete_orfree_multi_partial : forall fl g p s,
   repaired fl = true -> or_free p = true -> topo p = true ->
   forall root cand,
   outs_reachable_multi p ->
-  In cand (candidates p g root) ->
+  In cand (candidates fl p g root) ->
   instanceb g p cand s = true ->
-  (forall c, In c (candidates p g root) -> try_candidate fl g p false c <> Err) ->
+  (forall c, In c (candidates fl p g root) -> try_candidate fl g p false c <> Err) ->
   exists m, run fl p g root false = Ok m.
 Proof. exact run_complete_orfree_multi_closed. Qed.
 Print Assumptions C06_match_complete_orfree_multi_partial.
 
 Example C06_match_complete_multi_satisfiable :
   or_free p_two_roots = true /\ topo p_two_roots = true /\ outs_reachable_multi p_two_roots /\
-  candidates p_two_roots g_two_roots 0 = [[0; 1]; [0; 2]] /\
+  candidates flags_fixed p_two_roots g_two_roots 0 = [[0; 1]; [0; 2]] /\
   instanceb g_two_roots p_two_roots [0; 2] s_two_roots = true /\
-  (forall c, In c (candidates p_two_roots g_two_roots 0) -> try_candidate flags_fixed g_two_roots p_two_roots false c <> Err) /\
+  (forall c, In c (candidates flags_fixed p_two_roots g_two_roots 0) -> try_candidate flags_fixed g_two_roots p_two_roots false c <> Err) /\
   exists m, run flags_fixed p_two_roots g_two_roots 0 false = Ok m /\ m_nodes m = [0; 2].
 Proof. exact multi_example. Qed.
 
